@@ -272,7 +272,7 @@ Print Assumptions finalize_gives_well_indexed.
 
 (* --- character level (coq/Geom/GeomLex.v, under the token-level readers; tied by correspondence on the files and on
    textual variants of them): what io_utils::token accepts between a keyword and the colon *)
-From OM Require Import Geom.GeomFile Geom.GeomLex Geom.GeomLexProofs.
+From OM Require Import Geom.GeomFile Geom.GeomFileProofs Geom.GeomLex Geom.GeomLexProofs.
 
 Theorem lexer_name_after_one_blank : forall sp name rest, isspace sp = true -> plain name -> name <> [] ->
   token (mkS (sp :: name ++ 58%nat :: rest) false) = (mkS rest false, name).
@@ -348,3 +348,9 @@ Example lexer_refines_token_reader_instance :
   lex_geom (render_v11 [49] [49] [50] [([109], [97; 46; 116; 114; 105])] [([73], [[43; 109]])] [([65], [[45; 73]]); ([66], [[73]])])
   = Some (tokens_v11 [([109], [97; 46; 116; 114; 105])] [([73], [[43; 109]])] [([65], [[45; 73]]); ([66], [[73]])]).
 Proof. vm_compute. reflexivity. Qed.
+
+(* --- mixed named / unnamed sections: an unnamed `Mesh:` / `Interface:` entry is called by its position in the section *)
+Theorem unnamed_entry_is_named_by_its_position : forall (A : Type) numname (l : list (option nat * A)) j a,
+  nth_error l j = Some (None, a) -> nth_error (name_entries numname V11 0 l) j = Some (numname j, a).
+Proof. intros A. exact (@GeomFileProofs.unnamed_entry_named_by_position A). Qed.
+Print Assumptions unnamed_entry_is_named_by_its_position.
